@@ -28,12 +28,12 @@ theorem recOK_closed (st : State) (p0 p1 : HPoint) : RecOK (closedHyst st p0 p1)
 /-- Half-counted (Memory 3) hystereses are symmetric about zero and carry the zero-mean flag;
 closed ones do not. -/
 theorem memory3_symmetric (law : Law) (s : List Vec) :
-    ∀ h ∈ (twoPass law s).recs,
+    ∀ h ∈ (twoPassR law s).recs,
       (h.closed = false → h.zeroMean = true ∧ h.loadMin = vneg h.loadMax ∧ h.sMin = vneg h.sMax ∧ h.eMin = vneg h.eMax) ∧
       (h.closed = true → h.zeroMean = false) := by
-  unfold twoPass
-  have p1 := process_recs law RecOK {} (adjustFirstRun (dropTrailingNonReversals s)).1
-    (adjustFirstRun (dropTrailingNonReversals s)).2
+  unfold twoPassR
+  have p1 := process_recs law RecOK {} (adjustFirstRunR (dropTrailingNonReversals s)).1
+    (adjustFirstRunR (dropTrailingNonReversals s)).2
     (fun _ st' prev _ => recOK_half st' prev) (fun st' p0 p1 _ => recOK_closed st' p0 p1)
     (by intro h hh; simp at hh)
   have p2 := process_recs law RecOK _ (dropTrailingNonReversals s) true
@@ -48,8 +48,8 @@ def Pass2Closed (h : Hyst) : Prop := h.run = 2 → h.closed = true
 pass flushes, i.e. is fed the last sample of the trimmed sequence.  (This hypothesis is what
 `TwoDistinct (s.map rep)` provides, see below.) -/
 theorem pass2_all_closed_of_flush (law : Law) (s : List Vec)
-    (hf : (adjustFirstRun (dropTrailingNonReversals s)).2 = true) :
-    ∀ h ∈ (twoPass law s).recs, h.run = 2 → h.closed = true := by
+    (hf : (adjustFirstRunR (dropTrailingNonReversals s)).2 = true) :
+    ∀ h ∈ (twoPassR law s).recs, h.run = 2 → h.closed = true := by
   rw [twoPass_eq, hf, adjustFirstRun_fst]
   generalize dropTrailingNonReversals s = s'
   generalize hz : List.replicate (s'.headD []).length (0 : Int) = z
@@ -89,7 +89,7 @@ theorem pass2_all_closed_of_flush (law : Law) (s : List Vec)
 
 /-- Memory 3 occurs only in the first pass: every hysteresis of pass 2 is a full one. -/
 theorem pass2_all_closed (law : Law) (s : List Vec) (h2 : TwoDistinct (s.map rep)) :
-    ∀ h ∈ (twoPass law s).recs, h.run = 2 → h.closed = true :=
+    ∀ h ∈ (twoPassR law s).recs, h.run = 2 → h.closed = true :=
   pass2_all_closed_of_flush law s (flush_of_twoDistinct s h2)
 
 /-! ### non-vacuity -/
@@ -98,7 +98,7 @@ example : TwoDistinct ((one [100, -200, 0, 200, -100, 100]).map rep) :=
   ⟨100, by decide, -200, by decide, by decide⟩
 
 /-- a sequence whose two passes record half (Memory 3) and closed hystereses, some of them in pass 2 -/
-example : ((twoPass lawLinear (one [100, -200, 0, 200, -100, 100])).recs.map
+example : ((twoPassR lawLinear (one [100, -200, 0, 200, -100, 100])).recs.map
     fun h => (h.run, h.closed, rep h.loadMin, rep h.loadMax)) =
     [(1, false, -100, 100), (2, true, -100, 100), (2, true, -200, 200)] := by decide +kernel
 
